@@ -180,6 +180,13 @@ func checkC19(c *vsched.RunCtx) {
 	inner := encoding.GetCodec(protoCodec.Name)
 	codec := &myCodec{protoCodec: inner}
 	nt := map[string]bool{}
+	// results are kept while later messages are marshalled: an output must not
+	// change after it was returned (no scratch memory shared between calls)
+	type held struct {
+		desc      string
+		out, snap []byte
+	}
+	var kept []held
 	for mi, base := range messages() {
 		for ui, unk := range unknownVariants {
 			if (mi*len(unknownVariants)+ui)%c.NShards != c.Shard {
@@ -205,6 +212,7 @@ func checkC19(c *vsched.RunCtx) {
 				report("C19.M", "Marshal fails on a valid message", fmt.Sprintf("%s: %v", desc, err))
 				continue
 			}
+			kept = append(kept, held{desc, out, append([]byte{}, out...)})
 			if len(out) < 6 || out[0] != 0xFD || out[1] != 0x7F {
 				report("C19.M", "output does not start with the field-2047 fixed32 tag", fmt.Sprintf("%s: % x", desc, head(out)))
 				continue
@@ -265,6 +273,18 @@ func checkC19(c *vsched.RunCtx) {
 			if len(st.Samples) < 3 && proto.Size(m) > 0 && proto.Size(m) < 40 {
 				st.Samples = append(st.Samples, map[string]interface{}{"message": fmt.Sprintf("%T %v", m, m), "unknown_fields_hex": fmt.Sprintf("%x", unk), "output_hex": fmt.Sprintf("%x", out)})
 			}
+		}
+	}
+	// every shard: the small messages again, interleaved, then all kept outputs are compared with their snapshots
+	for _, v := range []int64{0, 1, 2} {
+		o, _ := codec.Marshal(wrapperspb.Int64(v))
+		kept = append(kept, held{fmt.Sprintf("Int64Value(%d)", v), o, append([]byte{}, o...)})
+		o2, _ := codec.Marshal(&emptypb.Empty{})
+		kept = append(kept, held{"Empty", o2, append([]byte{}, o2...)})
+	}
+	for _, h := range kept {
+		if !bytes.Equal(h.out, h.snap) {
+			report("C19.M", "an earlier Marshal result was modified by a later Marshal call", fmt.Sprintf("%s: returned % x, now % x", h.desc, head(h.snap), head(h.out)))
 		}
 	}
 	if c.Shard == 0 {
